@@ -186,6 +186,14 @@ class Ref:
             V += source_cov(s, vals, self.n)
         return V
 
+    def x_errors_too_large(self, p):
+        """xy problems: an x uncertainty larger than half the spacing of the points makes the first-order projection kafe2 documents meaningless (the
+        cost surface becomes jagged); such problems are not well-posed for the minimiser-level properties"""
+        if self.t != "xy" or self.n < 2:
+            return False
+        sx = np.sqrt(np.clip(np.diag(self.axis_cov("x", p)), 0, None))
+        return bool(np.any(sx > 0) and np.max(sx) > 0.5 * np.min(np.diff(np.sort(self.x))))
+
     def total_cov(self, p):
         Vy = self.axis_cov("y", p)
         if self.t == "xy":
